@@ -9,4 +9,4 @@ RULE = ("PE: generated images signed with relic's own pe-coff signer (P-256 / RS
         "positions are mutated one byte at a time and the real verifier (integrity on) is run on each mutant; the model predicts "
         "pass/fail from `locate` and from equality of the hashed stream; mutations inside the PKCS#7 blob are left to the code. "
         "Non-trivial = distinct signed image.")
-install(globals(), "C02", ["pe"])
+install(globals(), "C02", ["pe", "e2e"])
